@@ -661,6 +661,8 @@ def filtered_indices(n, pred):
 # ---- linalg ---------------------------------------------------------------------
 
 def det(a):
+    if isinstance(a, _np.ndarray) and a.dtype != object:
+        return float(_np.linalg.det(a))
     a = _c(a)
     n = a.shape[0]
     if a.shape != (n, n):
@@ -756,6 +758,9 @@ def angle_of(r):
 
 
 def angle_of_trace(tr):
+    if not sym.has_ctx():
+        import math
+        return math.acos(max(-1.0, min(1.0, (float(tr) - 1.0) / 2.0)))
     c = cur()
     pi = sym.pi_axiom()
     t = _term(to_real(tr))
